@@ -573,12 +573,15 @@ def check_ready_earned(b, ready_block, facts, res):
         inner_ok = True
         n_sites = 0
         try:
-            def value_sites(local, neg, depth=0):
-                """[(block, constant value or None, call term or None)]: where the bool in `local` gets its value"""
+            from ..defuse import subst as _subst
+
+            def value_sites(xb, local, neg, depth=0):
+                """[(block, constant value or None, call term or None)]: where the bool in `local` of body xb gets its value"""
+                xdu = du_of(xb)
                 out = []
-                for d in cdu.full_defs(local):
+                for d in xdu.full_defs(local):
                     if d.kind == "call":
-                        out.append((d.block, None, (cdu.call_term(d.term, d.block, 14), neg)))
+                        out.append((d.block, None, (xdu.call_term(d.term, d.block, 14), neg)))
                         continue
                     rv = d.rv
                     ops = rv.operands()
@@ -586,19 +589,56 @@ def check_ready_earned(b, ready_block, facts, res):
                         out.append((d.block, bool(ops[0].j["bool"]) != neg, None))
                     elif rv.kind in ("use", "unop") and ops and ops[0].place is not None and not ops[0].place.proj and depth < 6 and \
                             (rv.kind == "use" or rv.j.get("op") == "Not"):
-                        out += value_sites(ops[0].place.local, neg != (rv.kind == "unop"), depth + 1)
+                        out += value_sites(xb, ops[0].place.local, neg != (rv.kind == "unop"), depth + 1)
                     else:
                         out.append((d.block, None, None))
                 return out
-            for (sblk, cval, callinfo) in value_sites(0, False):
-                if cval is not None and cval != want:
-                    continue                # the failing value: no obligation
+
+            def passing_sites(xb, want_, mapping, extra, depth=0):
+                """[[Lit]]: for every site where body xb yields want_, the literals that hold there (in the frame of the
+                outermost closure); Option combinators with a predicate closure are split into their None / Some cases"""
+                res_ = []
+                for (sblk, cval, callinfo) in value_sites(xb, 0, False):
+                    if cval is not None and cval != want_:
+                        continue                # the failing value: no obligation
+                    here = extra + [Lit(l.kind, _subst(l.term, mapping), l.truth, l.variants, l.block, l.raw, l.value, l.adt)
+                                    for l in lits_of(xb, sblk, facts)]
+                    if callinfo is not None:
+                        ct, neg = callinfo
+                        nm_ = callee_name(ct)
+                        w_ = (want_ != neg)
+                        inner_c = None
+                        if nm_ in ("map_or", "is_none_or", "is_some_and") and len(ct[2]) >= 2 and depth < 3:
+                            c_ = ct[2][-1]
+                            hops = 0
+                            while hops < 20 and c_[0] in ("ref", "deref", "cast", "var"):
+                                hops += 1
+                                c_ = c_[3] if c_[0] == "var" else c_[1]
+                            if c_[0] == "closure":
+                                inner_c = c_
+                        if inner_c is not None and facts.body(inner_c[1]) is not None:
+                            opt = _subst(ct[2][0], mapping)
+                            if nm_ == "map_or":
+                                d_ = ct[2][1]
+                                while d_[0] == "var":
+                                    d_ = d_[3]
+                                dflt = d_[2] if d_[0] == "const" and d_[1] == "bool" else None
+                            else:
+                                dflt = (nm_ == "is_none_or")
+                            if dflt is None or dflt == w_:
+                                res_.append(here + [Lit("variant", opt, None, {"None"}, sblk)])
+                            fb_ = facts.body(inner_c[1])
+                            m2 = {2: ("field", ("downcast", opt, "Some"), "0", "std::option::Option::Some")}
+                            for i_, cap in enumerate(inner_c[2] or []):
+                                m2[("upvar", i_)] = _subst(cap, mapping)
+                            res_ += passing_sites(fb_, w_, m2, here + [Lit("variant", opt, None, {"Some"}, sblk)], depth + 1)
+                            continue
+                        here = here + [Lit("call", _subst(ct, mapping), truth=w_, block=sblk)]
+                    res_.append(here)
+                return res_
+            for ls_ in passing_sites(cb, want, {}, []):
                 n_sites += 1
-                ok_here = any(pass_pred(l) for l in lits_of(cb, sblk, facts))
-                if not ok_here and callinfo is not None:
-                    ct, neg = callinfo
-                    ok_here = pass_pred(Lit("call", ct, truth=(want != neg), block=sblk))
-                inner_ok = inner_ok and ok_here
+                inner_ok = inner_ok and any(pass_pred(l) for l in ls_)
         finally:
             MODE["closure"] = None
         res.instance("A2", "%s check (closure form %s): Ready only over the passing edge (%s); the closure passes only through `%s` (%d site(s): %s)" % (
